@@ -417,6 +417,9 @@ def verdict(prop, spec, res, tier, seed, t0, evpath, rdir):
             continue
         if key == 'san':
             continue   # refined from the sanitizer logs below; kept as replay pointer
+        if key.startswith('stall:'):
+            res.inconclusive.append('case stalled (wall-clock watchdog inside the harness): %s %s' % (replay, msg[:120]))
+            continue
         k = '%s:%s' % (prop, key)
         if k in vio:
             old = vio[k]
